@@ -478,11 +478,11 @@ class C07(core.Check):
         for e in mesh.edge_list.edges:
             p = payload(e.data)
             p.update({"v1": e.vertex_1.index, "v2": e.vertex_2.index, "repr": e.representation})
-            if hasattr(e, "third_point"):
-                p["third"] = [float(x) for x in e.third_point.position]
-            if e.kind == "curve":
-                p["written"] = [[float(x) for x in q] for q in e.point_array]
-            p["length"] = float(e.length)
+            try:
+                p["length"] = float(e.length)
+            except Exception as ex:  # e.g. a collinear arc that should not have been listed
+                p["length"] = None
+                p["length_error"] = type(ex).__name__
             E.append(p)
         B, W = [], []
         for blk in mesh.block_list.blocks:
@@ -491,13 +491,17 @@ class C07(core.Check):
             for a, b in BM_EDGES:
                 wire = blk.wires[a][b]
                 ed = wire.edge
+                try:
+                    wlen = float(wire.length)
+                except Exception:
+                    wlen = None
                 ws[f"{a}-{b}"] = {
                     "v1": ed.vertex_1.index,
                     "v2": ed.vertex_2.index,
                     "kind": ed.kind,
                     "tag": objs.get(id(ed.data), (0, None))[0],
                     "listed": int(id(ed) in listed),
-                    "length": float(wire.length),
+                    "length": wlen,
                     "wv": [wire.vertices[0].index, wire.vertices[1].index],
                 }
             W.append(ws)
@@ -713,7 +717,9 @@ class C07(core.Check):
             for a, b in BM_EDGES:
                 block_edges.add(frozenset((blk[a], blk[b])))
         for w in written:
-            if frozenset((w["v1"], w["v2"])) not in block_edges or w["v1"] == w["v2"]:
+            if w["v1"] == w["v2"]:
+                viol("Edge.is_valid:zero-length-written", f"entry {w['kind']} {w['v1']} {w['v2']} joins a vertex with itself")
+            elif frozenset((w["v1"], w["v2"])) not in block_edges:
                 viol("EdgeList.add_from_operation:not-a-block-edge", f"entry {w['kind']} {w['v1']} {w['v2']}")
         if out:
             return out
@@ -767,13 +773,13 @@ class C07(core.Check):
                     site = f"Edge.length:{x['cls']}:{x['d']['k']}"
                     first = min(y["op"] for y in by_pair[pair] if self._valid(y))
                     wedge = len(set(impl["B"][n])) < 8
-                    if (first > n or (first == n and wedge)) and abs(wire["length"] - chord) <= 1e-9 * max(1.0, chord) and not wire["listed"]:
+                    if wire["length"] is not None and (first > n or (first == n and wedge)) and abs(wire["length"] - chord) <= 1e-9 * max(1.0, chord) and not wire["listed"]:
                         # the wire was made before anything defined this edge (an earlier block, or the coincident
                         # wire of a collapsed block that comes first in the enumeration): it keeps a straight line
                         site = "Wire.edge:defined-later"
                 else:
                     exp, tol, site = chord, 1e-9, "Edge.length:straight"
-                if abs(wire["length"] - exp) > tol * max(1.0, exp):
+                if wire["length"] is None or not abs(wire["length"] - exp) <= tol * max(1.0, exp):
                     viol(site, f"block {n} wire {key} reports length {wire['length']}, the described curve has {exp}", wire["length"], exp)
         return out
 
